@@ -49,9 +49,9 @@ def build_module(module: str, cls: str, vtype: str, lit: str, deps: list[dict[st
 	for d in deps:
 		name = d['cls']
 		if alias and name == cls:
-			lines.append(f"from {d['module']} import {name} as {name}_{d['tag']}, make_{d['tag']}" + (f", wide_{d['tag']}" if d.get('wide') else '') + (f", IntHolder_{d['tag']}, make_tree_{d['tag']}" if d.get('generic') else ''))
+			lines.append(f"from {d['module']} import {name} as {name}_{d['tag']}, make_{d['tag']}" + (f", wide_{d['tag']}, TABLE_{d['tag']}" if d.get('wide') else '') + (f", IntHolder_{d['tag']}, make_tree_{d['tag']}" if d.get('generic') else ''))
 		else:
-			lines.append(f"from {d['module']} import {name}, make_{d['tag']}" + (f", wide_{d['tag']}" if d.get('wide') else '') + (f", IntHolder_{d['tag']}, make_tree_{d['tag']}" if d.get('generic') else ''))
+			lines.append(f"from {d['module']} import {name}, make_{d['tag']}" + (f", wide_{d['tag']}, TABLE_{d['tag']}" if d.get('wide') else '') + (f", IntHolder_{d['tag']}, make_tree_{d['tag']}" if d.get('generic') else ''))
 
 	def dep_cls(d: dict[str, Any]) -> str:
 		return f"{d['cls']}_{d['tag']}" if alias and d['cls'] == cls else d['cls']
@@ -73,7 +73,7 @@ def build_module(module: str, cls: str, vtype: str, lit: str, deps: list[dict[st
 		lines += [f'class Kind_{tag}(Enum):', '\tA = 0', '\tB = 1', '', '']
 	lines.append(f'class {cls}:')
 	if doc:
-		lines += ['\t"""Holder of one value', '', '\tNote:', f'\t\tspans several lines ({tag})', '\t"""', '']
+		lines += ['\t"""Holder of one value', '', '\tNote:', f'\t\tspans several lines ({tag})', '\t\tgenerated files start with a line like @tranp.meta: {"version":"0.0.0","module":{"hash":"0","path":"doc.example"},"transpiler":{"version":"0","module":"doc"}}', '\t"""', '']
 	lines.append(f'\tvalue: {vtype}')
 	lines.append(f'\titems: list[{vtype}]')
 	if extra_field:
@@ -106,8 +106,11 @@ def build_module(module: str, cls: str, vtype: str, lit: str, deps: list[dict[st
 	lines += ['', '']
 	lines.append(f'def make_{tag}() -> {cls}:')
 	if doc:
-		lines += ['\t"""Factory', '', '\tReturns:', '\t\ta fresh instance', '\t"""']
+		lines += ['\t"""Factory', '', '\tReturns:', '\t\ta fresh instance (the @tranp.meta header is not part of it)', '\t"""']
 	lines.append(f'\treturn {cls}({lit})')
+	if wide:
+		lines += ['', '']
+		lines.append(f"TABLE_{tag}: dict[str, list[int]] = {{'k': [1]}}")
 	if wide:
 		# >= 11 sibling attributes (two-digit index paths in the stored symbol form) and nested generics below them
 		lines += ['', '']
@@ -162,6 +165,8 @@ def build_module(module: str, cls: str, vtype: str, lit: str, deps: list[dict[st
 			lines.append(f'\tlf_{t} = tf_{t}.value')
 			lines.append(f'\tlm_{t} = lf_{t}.m')
 		if d.get('wide'):
+			lines.append(f"\trw_{t} = TABLE_{t}['k']")
+			lines.append(f'\trw2_{t} = rw_{t}')
 			lines.append(f"\two_{t} = wide_{t}(0, 'a', 1.5, [1], {{'k': 1}}, True, make_{t}(), ['s'], {{'k': [1]}}, 2.5, [make_{t}()], make_{t}().value)")
 			lines.append(f'\two2_{t} = wo_{t}')
 		lines.append(f'\tv_{t} = make_{t}()')
